@@ -44,7 +44,7 @@ def cases(prof, cfgs, sub_ms=False):
   def strat(tier):
     eps = st.sampled_from(c06.EPS) if sub_ms else st.none()
     return st.builds(lambda spec, mode, cfg, e, o: {"spec": c06.tiny_times(c06.shape(spec, mode), e, o), "cfg": cfg},
-                     gen_model.docspecs(prof), st.sampled_from([0, 1, 2]), st.sampled_from(cfgs), eps, st.sampled_from(c06.OFFSETS))
+                     gen_model.docspecs(prof), st.sampled_from([0, 1, 2, 3]), st.sampled_from(cfgs), eps, st.sampled_from(c06.OFFSETS))
   return strat
 
 
